@@ -1024,6 +1024,7 @@ def own_sanity(ctx):
 def search(ctx):
     drv, ctx.driver = ctx.driver, None
     try:
+        format_spec_cases(ctx)
         for case in gen_cases(ctx, True):
             run_case(ctx, case)
     finally:
